@@ -42,6 +42,7 @@
 //     gapre <var> <le|ge|eq> <den> <b> <coeffs>  generalized_affine_preimage(Variable(var), relsym, coeffs·x + b, den)
 //     unc  <var>                             unconstrain(Variable(var))
 //     oaff <var> <den> <b> <coeffs>          Octagonal_Shape<T>::affine_image (mpz, int8, mpq, double; --oct <cases>)
+//   stage 5 (--s5 <cases per type per batch>): the op codes documented at `stage 5` below
 #include <cstdio>
 #include <cstdlib>
 #include <cstring>
@@ -376,6 +377,308 @@ template <typename T> void run_oct(pplv::Rng& g, const std::string& idp, int per
   }
 }
 
+// ---- stage 5 ------------------------------------------------------------------------------------------------
+// The remaining transformers and the lattice / dimension operations of BOTH domains, one code path for the
+// generator and for --replay: the arguments are strings (exactly as journalled), `s5_apply` parses them and
+// calls the real function.  Octagon op codes are the BD ones with the prefix `o`.
+//
+//   transformers (after = matrix | E | X:<class>, as above):
+//     [o]addc / [o]refine <sd> <kind> <inhomo> <coeffs>
+//     [o]refv  <var> <le|ge|eq> <den> <b> <coeffs>      private refine(var, relsym, expr, den) on a closed shape,
+//                                                       expr.coefficient(var) == 0
+//     [o]gaff [o]baff [o]apre [o]gapre [o]unc           as above
+//     [o]gaffl / [o]gaprel <le|ge|eq> <bl> <lcoeffs> <br> <rcoeffs>
+//                                                       generalized_affine_(pre)image(lhs, relsym, rhs)
+//   lattice / dimension operations (after = <n'>|<closed'>|<matrix or -> | E | X:<class>):
+//     [o]meet [o]join [o]diff [o]tel <closed2> <matrix2>           intersection_assign, upper_bound_assign,
+//                                                                  difference_assign, time_elapse_assign
+//     [o]concat <n2> <closed2> <matrix2>
+//     [o]embed <k>   [o]project <k>   [o]rmdims <vars|->   [o]rmhi <newdim>
+//     [o]mapdims <pf>      pf: for Variable(i) its image or `x`, comma separated
+//     [o]expand <var> <k>  [o]fold <vars|-> <dest>
+static std::vector<std::string> split(const std::string& s, char sep);
+template <typename N> void parse_entry(N& x, const std::string& s);
+static std::vector<long> parse_coeffs(const std::string& s);
+static Linear_Expression mk_expr(const std::vector<long>& e, long b);
+static Relation_Symbol mk_rel(const std::string& r);
+
+template <typename T> void do_close(BD_Shape<T>& s) { s.shortest_path_closure_assign(); }
+template <typename T> void do_close(Octagonal_Shape<T>& s) { s.strong_closure_assign(); }
+template <typename T> int closed_flag(const BD_Shape<T>& s) { return s.marked_shortest_path_closed() ? 1 : 0; }
+template <typename T> int closed_flag(const Octagonal_Shape<T>& s) { return s.marked_strongly_closed() ? 1 : 0; }
+template <typename T> const char* op_prefix(const BD_Shape<T>&) { return ""; }
+template <typename T> const char* op_prefix(const Octagonal_Shape<T>&) { return "o"; }
+
+template <typename T> void load(BD_Shape<T>& bd, const std::string& mat, bool closed) {
+  dimension_type n = bd.space_dimension();
+  std::vector<std::string> rows = split(mat, ';');
+  for (dimension_type i = 0; i <= n; ++i) {
+    std::vector<std::string> es = split(rows.at(i), ',');
+    for (dimension_type j = 0; j <= n; ++j) parse_entry(bd.dbm[i][j], es.at(j));
+  }
+  if (closed) bd.set_shortest_path_closed(); else bd.reset_shortest_path_closed();
+}
+template <typename T> void load(Octagonal_Shape<T>& oc, const std::string& mat, bool closed) {
+  if (oc.space_dimension() > 0) {
+    std::vector<std::string> rows = split(mat, ';');
+    dimension_type ri = 0;
+    for (typename OR_Matrix<typename Octagonal_Shape<T>::N>::row_iterator i = oc.matrix.row_begin(), e = oc.matrix.row_end(); i != e; ++i, ++ri) {
+      typename OR_Matrix<typename Octagonal_Shape<T>::N>::row_reference_type row = *i;
+      std::vector<std::string> es = split(rows.at(ri), ',');
+      for (dimension_type j = 0, rs = i.row_size(); j < rs; ++j) parse_entry(row[j], es.at(j));
+    }
+  }
+  if (closed) oc.set_strongly_closed(); else oc.reset_strongly_closed();
+}
+template <typename S> std::string dump2(const S& s) { std::string r = dump(s); return r.empty() ? std::string("-") : r; }
+template <typename S> std::string outcome2(const S& s) {
+  if (s.marked_empty()) return "E";
+  return std::to_string(s.space_dimension()) + "|" + std::to_string(closed_flag(s)) + "|" + dump2(s);
+}
+
+struct PFunc {
+  std::vector<long> v;                   // -1: undefined
+  bool has_empty_codomain() const { for (long x : v) if (x >= 0) return false; return true; }
+  dimension_type max_in_codomain() const { long m = -1; for (long x : v) m = std::max(m, x); return (dimension_type)m; }
+  bool maps(dimension_type i, dimension_type& j) const { if (i >= v.size() || v[i] < 0) return false; j = (dimension_type)v[i]; return true; }
+};
+static Variables_Set mk_vars(const std::string& s) {
+  Variables_Set vs;
+  for (long v : parse_coeffs(s)) vs.insert((dimension_type)v);
+  return vs;
+}
+static bool lattice_op(const std::string& op) {
+  static const char* L[] = {"meet", "join", "diff", "tel", "concat", "embed", "project", "rmdims", "rmhi", "mapdims", "expand", "fold"};
+  for (const char* l : L) if (op == l) return true;
+  return false;
+}
+static size_t s5_nargs(const std::string& op) {
+  if (op == "addc" || op == "refine" || op == "aff" || op == "apre") return 4;
+  if (op == "refv" || op == "gaff" || op == "gapre" || op == "gaffl" || op == "gaprel") return 5;
+  if (op == "baff") return 6;
+  if (op == "unc" || op == "embed" || op == "project" || op == "rmdims" || op == "rmhi" || op == "mapdims") return 1;
+  if (op == "meet" || op == "join" || op == "diff" || op == "tel" || op == "expand" || op == "fold") return 2;
+  if (op == "concat") return 3;
+  return 0;
+}
+
+// the call itself; `op` without the octagon prefix
+template <typename S> std::string s5_apply(S& s, const std::string& op, const std::vector<std::string>& a) {
+  std::string after;
+  try {
+    if (op == "addc" || op == "refine") {
+      Linear_Expression le = mk_expr(parse_coeffs(a[3]), atol(a[2].c_str()));
+      le.set_space_dimension((dimension_type)atol(a[0].c_str()));
+      Constraint c = a[1] == "eq" ? (le == 0) : a[1] == "ge" ? (le >= 0) : (le > 0);
+      if (op == "refine") s.refine_no_check(c); else s.add_constraint(c);
+    }
+    else if (op == "refv") s.refine(Variable(atol(a[0].c_str())), mk_rel(a[1]), mk_expr(parse_coeffs(a[4]), atol(a[3].c_str())), Coefficient(atol(a[2].c_str())));
+    else if (op == "aff") s.affine_image(Variable(atol(a[0].c_str())), mk_expr(parse_coeffs(a[3]), atol(a[2].c_str())), Coefficient(atol(a[1].c_str())));
+    else if (op == "apre") s.affine_preimage(Variable(atol(a[0].c_str())), mk_expr(parse_coeffs(a[3]), atol(a[2].c_str())), Coefficient(atol(a[1].c_str())));
+    else if (op == "gaff") s.generalized_affine_image(Variable(atol(a[0].c_str())), mk_rel(a[1]), mk_expr(parse_coeffs(a[4]), atol(a[3].c_str())), Coefficient(atol(a[2].c_str())));
+    else if (op == "gapre") s.generalized_affine_preimage(Variable(atol(a[0].c_str())), mk_rel(a[1]), mk_expr(parse_coeffs(a[4]), atol(a[3].c_str())), Coefficient(atol(a[2].c_str())));
+    else if (op == "baff") s.bounded_affine_image(Variable(atol(a[0].c_str())), mk_expr(parse_coeffs(a[3]), atol(a[2].c_str())), mk_expr(parse_coeffs(a[5]), atol(a[4].c_str())), Coefficient(atol(a[1].c_str())));
+    else if (op == "unc") s.unconstrain(Variable(atol(a[0].c_str())));
+    else if (op == "gaffl") s.generalized_affine_image(mk_expr(parse_coeffs(a[2]), atol(a[1].c_str())), mk_rel(a[0]), mk_expr(parse_coeffs(a[4]), atol(a[3].c_str())));
+    else if (op == "gaprel") s.generalized_affine_preimage(mk_expr(parse_coeffs(a[2]), atol(a[1].c_str())), mk_rel(a[0]), mk_expr(parse_coeffs(a[4]), atol(a[3].c_str())));
+    else if (op == "meet" || op == "join" || op == "diff" || op == "tel") {
+      S y(s.space_dimension(), UNIVERSE);
+      load(y, a[1], a[0] == "1");
+      if (op == "meet") s.intersection_assign(y);
+      else if (op == "join") s.upper_bound_assign(y);
+      else if (op == "diff") s.difference_assign(y);
+      else s.time_elapse_assign(y);
+    }
+    else if (op == "concat") {
+      S y((dimension_type)atol(a[0].c_str()), UNIVERSE);
+      load(y, a[2], a[1] == "1");
+      s.concatenate_assign(y);
+    }
+    else if (op == "embed") s.add_space_dimensions_and_embed((dimension_type)atol(a[0].c_str()));
+    else if (op == "project") s.add_space_dimensions_and_project((dimension_type)atol(a[0].c_str()));
+    else if (op == "rmdims") s.remove_space_dimensions(mk_vars(a[0]));
+    else if (op == "rmhi") s.remove_higher_space_dimensions((dimension_type)atol(a[0].c_str()));
+    else if (op == "mapdims") {
+      PFunc pf;
+      for (const std::string& t : split(a[0], ',')) pf.v.push_back(t == "x" ? -1 : atol(t.c_str()));
+      s.map_space_dimensions(pf);
+    }
+    else if (op == "expand") s.expand_space_dimension(Variable(atol(a[0].c_str())), (dimension_type)atol(a[1].c_str()));
+    else if (op == "fold") s.fold_space_dimensions(mk_vars(a[0]), Variable(atol(a[1].c_str())));
+    after = lattice_op(op) ? outcome2(s) : outcome(s);
+  } catch (int) { after = "X:int"; }
+  catch (...) { after = "X:" + pplv::exc_class(); }
+  return after;
+}
+
+// a random shape of dimension n; false: dropped (marked empty by the closure)
+template <typename S> bool s5_shape(pplv::Rng& g, S& s, bool must_close) {
+  unsigned unary = g.below(3);
+  unsigned dens = unary == 1 ? g.below(35) : 10 + g.below(70);
+  if (s.space_dimension() == 0) return true;
+  fill(g, s, dens, unary, g.chance(1, 5));
+  if (must_close || g.chance(3, 4)) {
+    do_close(s);
+    if (s.marked_empty()) return false;
+  }
+  else {
+    S probe(s);
+    do_close(probe);
+    if (probe.marked_empty() && !g.chance(1, 4)) return false;
+  }
+  return true;
+}
+
+static std::string join_longs(const std::vector<long>& v, const char* empty = "-") {
+  if (v.empty()) return empty;
+  std::string r; for (size_t i = 0; i < v.size(); ++i) { if (i) r += ","; r += std::to_string(v[i]); } return r;
+}
+
+template <typename S, typename T> void s5_case(pplv::Rng& g, const std::string& id, unsigned group) {
+  const std::string mode = Ty<T>::mode();
+  const bool is_oct = std::string(op_prefix(S(1, UNIVERSE))) == "o";
+  static const dimension_type ns_bd[] = {1, 2, 2, 2, 3, 3, 3, 3, 4};
+  dimension_type n = is_oct ? 1 + g.below(3) : ns_bd[g.below(9)];
+  std::string op; std::vector<std::string> a;
+  dimension_type var = g.below(n);
+  long den = rnd_den(g);
+  if (Ty<T>::big && g.chance(1, 12)) den = g.chance(1, 2) ? g.range(127, 300) : -g.range(127, 300);
+  bool must_close = false;
+  auto rel = [&]() { unsigned r = g.below(5); return std::string(r <= 1 ? "le" : r <= 3 ? "ge" : "eq"); };
+  std::vector<long> e, e2; long b, b2; Linear_Expression le;
+  S y(n, UNIVERSE);
+  if (group == 0) {            // the (var, …) transformers
+    unsigned w = g.below(45);
+    if (!is_oct && g.chance(2, 3)) w = 5;      // BD: the other codes of this group are stage-3 ones
+    if (w < 4) {
+      Constraint cc = rnd_con<T>(g, n);
+      if (is_oct && g.chance(1, 2) && n >= 2) {     // octagonal sums a*x + a*y
+        static const long as[] = {1, 1, -1, 2, -3};
+        long c = as[g.below(5)]; dimension_type x = g.below(n), yv = g.below(n - 1); if (yv >= x) ++yv;
+        Linear_Expression ee = c * Variable(x) + (g.chance(1, 2) ? c : -c) * Variable(yv);
+        long k = g.range(-6, 9);
+        switch (g.below(5)) { case 0: cc = (ee == k); break; case 1: case 2: cc = (ee <= k); break; default: cc = (ee >= k); }
+      }
+      op = g.chance(1, 2) ? "refine" : "addc";
+      std::istringstream is(con_args(cc)); std::string t; while (is >> t) a.push_back(t);
+    }
+    else if (w < 10) {
+      op = "refv"; must_close = true;
+      rnd_expr<T>(g, n, var, den, g.chance(1, 2) ? 4 : g.below(5), e, b, le);
+      e[var] = 0;
+      a = {std::to_string(var), rel(), std::to_string(den), std::to_string(b), coeffs(e)};
+    }
+    else if (w < 22) {
+      op = "gaff";
+      if (g.chance(1, 2)) den = -labs(den);
+      rnd_expr<T>(g, n, var, den, g.chance(1, 2) ? 4 : g.below(5), e, b, le);
+      a = {std::to_string(var), rel(), std::to_string(den), std::to_string(b), coeffs(e)};
+    }
+    else if (w < 30) {
+      op = "baff";
+      rnd_expr<T>(g, n, var, den, g.below(5), e, b, le);
+      rnd_expr<T>(g, n, var, den, g.chance(1, 3) ? 4 : g.below(5), e2, b2, le);
+      a = {std::to_string(var), std::to_string(den), std::to_string(b), coeffs(e), std::to_string(b2), coeffs(e2)};
+    }
+    else if (w < 35) {
+      op = "apre";
+      rnd_expr<T>(g, n, var, den, g.chance(1, 3) ? 4 : g.below(5), e, b, le);
+      a = {std::to_string(var), std::to_string(den), std::to_string(b), coeffs(e)};
+    }
+    else if (w < 43) {
+      op = "gapre";
+      if (g.chance(1, 3)) den = -labs(den);
+      rnd_expr<T>(g, n, var, den, g.chance(1, 2) ? 4 : g.below(5), e, b, le);
+      a = {std::to_string(var), rel(), std::to_string(den), std::to_string(b), coeffs(e)};
+    }
+    else { op = "unc"; a = {std::to_string(var)}; }
+  }
+  else if (group == 1) {       // expression on the left-hand side
+    op = g.chance(1, 2) ? "gaffl" : "gaprel";
+    unsigned lform = g.below(8);          // 0: constant, 1-2: one variable, 3..: general
+    e.assign(n, 0);
+    static const long as[] = {1, -1, 1, -1, 2, -3, 5};
+    if (lform == 0) {}
+    else if (lform <= 2 || n < 2) e[var] = as[g.below(7)];
+    else {
+      unsigned k = 2 + g.below(n - 1), placed = 0;
+      long c = as[g.below(7)];
+      while (placed < k) {
+        dimension_type w = g.below(n);
+        if (e[w] == 0) { e[w] = placed == 0 ? c : (g.chance(2, 3) ? (g.chance(1, 2) ? c : -c) : as[g.below(7)]); ++placed; }
+      }
+    }
+    b = g.chance(1, 2) ? 0 : g.range(-6, 6);
+    // rhs: random; for a general lhs often over the other variables only (the disjoint case)
+    long rden = 1;
+    rnd_expr<T>(g, n, var, lform >= 1 && lform <= 2 ? e[var] : rden, g.chance(1, 2) ? 4 : g.below(5), e2, b2, le);
+    if (lform >= 3 && g.chance(1, 2)) for (dimension_type i = 0; i < n; ++i) if (e[i] != 0) e2[i] = 0;
+    a = {rel(), std::to_string(b), coeffs(e), std::to_string(b2), coeffs(e2)};
+  }
+  else {                       // lattice / dimension operations
+    unsigned w = g.below(40);
+    if (w < 13) {
+      op = w < 4 ? "meet" : w < 8 ? "join" : w < 12 ? "diff" : "tel";
+      if (op == "tel" && n > 2) n = 2;
+      y = S(n, UNIVERSE);
+      if (!s5_shape(g, y, false)) return;
+      a = {std::to_string(closed_flag(y)), dump2(y)};
+    }
+    else if (w < 16) {
+      op = "concat";
+      dimension_type n2 = g.chance(1, 8) ? 0 : 1 + g.below(2);
+      y = S(n2, UNIVERSE);
+      if (!s5_shape(g, y, false)) return;
+      a = {std::to_string(n2), std::to_string(closed_flag(y)), dump2(y)};
+    }
+    else if (w < 19) { op = g.chance(1, 2) ? "embed" : "project"; a = {std::to_string(g.below(3))}; }
+    else if (w < 24) {
+      op = "rmdims"; std::vector<long> vs;
+      for (dimension_type i = 0; i < n; ++i) if (g.chance(2, 5)) vs.push_back((long)i);
+      a = {join_longs(vs)};
+    }
+    else if (w < 26) { op = "rmhi"; a = {std::to_string(g.below(n + 1))}; }
+    else if (w < 31) {
+      op = "mapdims";
+      std::vector<long> kept, pf(n, -1);
+      for (dimension_type i = 0; i < n; ++i) if (g.chance(3, 4)) kept.push_back((long)i);
+      std::vector<long> tgt(kept.size());
+      for (size_t i = 0; i < tgt.size(); ++i) tgt[i] = (long)i;
+      for (size_t i = tgt.size(); i > 1; --i) std::swap(tgt[i - 1], tgt[g.below((unsigned)i)]);
+      for (size_t i = 0; i < kept.size(); ++i) pf[kept[i]] = tgt[i];
+      std::string s; for (dimension_type i = 0; i < n; ++i) { if (i) s += ","; s += pf[i] < 0 ? std::string("x") : std::to_string(pf[i]); }
+      a = {s};
+    }
+    else if (w < 35) { op = "expand"; a = {std::to_string(var), std::to_string(g.below(3))}; }
+    else {
+      op = "fold"; std::vector<long> vs;
+      for (dimension_type i = 0; i < n; ++i) if (i != var && g.chance(1, 2)) vs.push_back((long)i);
+      a = {join_longs(vs), std::to_string(var)};
+    }
+  }
+  S s(n, UNIVERSE);
+  if (!s5_shape(g, s, must_close)) return;
+  std::ostringstream L;
+  L << id << " " << op_prefix(s) << op << " " << mode << " " << n << " " << closed_flag(s) << " " << dump2(s) << " ";
+  for (const std::string& t : a) L << t << " ";
+  put(L.str());
+  put(s5_apply(s, op, a) + "\n");
+}
+
+template <typename T> void run_s5(pplv::Rng& g, const std::string& idp, int per) {
+  for (int c = 0; c < per; ++c) {
+    std::string id = idp + "." + std::to_string(c);
+    unsigned k = g.below(20);
+    // octagons: the (var, …) transformers are new in this stage; BD: only refv of that group
+    if (k < 9) s5_case<Octagonal_Shape<T>, T>(g, id, 0);
+    else if (k < 10) s5_case<BD_Shape<T>, T>(g, id, 0);
+    else if (k < 12) s5_case<BD_Shape<T>, T>(g, id, 1);
+    else if (k < 14) s5_case<Octagonal_Shape<T>, T>(g, id, 1);
+    else if (k < 17) s5_case<BD_Shape<T>, T>(g, id, 2);
+    else s5_case<Octagonal_Shape<T>, T>(g, id, 2);
+  }
+}
+
 // ---- replay: re-execute journal lines (their input part) on the current tree ------------------------------
 static std::vector<std::string> split(const std::string& s, char sep) {
   std::vector<std::string> r; std::string cur;
@@ -408,6 +711,23 @@ template <typename T> void replay_line(const std::vector<std::string>& t) {
   std::string headtxt;
   for (size_t i = 0; i < 6; ++i) headtxt += t[i] + " ";
   std::string after;
+  {
+    // stage-5 op codes (everything that is not one of the stage-3 codes)
+    static const char* S3[] = {"refine", "addc", "aff", "gaff", "baff", "apre", "gapre", "unc", "oaff"};
+    bool s3 = false; for (const char* o : S3) if (op == o) s3 = true;
+    if (!s3) {
+      bool oct = op[0] == 'o';
+      std::string bop = oct ? op.substr(1) : op;
+      size_t k = s5_nargs(bop);
+      for (size_t i = 0; i < k; ++i) headtxt += a.at(i) + " ";
+      std::vector<std::string> args(a.begin(), a.begin() + k);
+      put(headtxt);
+      if (oct) { Octagonal_Shape<T> s(n, UNIVERSE); load(s, t[5], closed); after = s5_apply(s, bop, args); }
+      else { BD_Shape<T> s(n, UNIVERSE); load(s, t[5], closed); after = s5_apply(s, bop, args); }
+      put(after + "\n");
+      return;
+    }
+  }
   if (op == "oaff") {
     Octagonal_Shape<T> oc(n, UNIVERSE);
     dimension_type ri = 0;
@@ -475,7 +795,7 @@ int main(int argc, char** argv) {
   if (rp) return replay_file(rp);
   long seed = pplv::arg_long(argc, argv, "--seed", 1), first = pplv::arg_long(argc, argv, "--first", 0),
        last = pplv::arg_long(argc, argv, "--last", 10), per = pplv::arg_long(argc, argv, "--per", 40),
-       oct = pplv::arg_long(argc, argv, "--oct", 0);
+       oct = pplv::arg_long(argc, argv, "--oct", 0), s5 = pplv::arg_long(argc, argv, "--s5", 0);
   return pplv::run_batches(first, last, [&](long b) {
     pplv::Rng g((uint64_t)seed * 1000003ull + (uint64_t)b);
     std::string p = std::to_string(seed) + "." + std::to_string(b);
@@ -488,6 +808,12 @@ int main(int argc, char** argv) {
       run_oct<int8_t>(g, p + ".oi8", (int)oct);
       run_oct<mpq_class>(g, p + ".oq", (int)oct);
       run_oct<double>(g, p + ".od", (int)oct);
+    }
+    if (s5) {
+      run_s5<mpq_class>(g, p + ".5q", (int)s5);
+      run_s5<mpz_class>(g, p + ".5z", (int)s5);
+      run_s5<int8_t>(g, p + ".5i8", (int)s5);
+      run_s5<double>(g, p + ".5d", (int)s5);
     }
   }, 120);
 }
